@@ -287,7 +287,9 @@ def conc(case):
 
 def jobs(tier, seed):
     q = tier == "quick"
-    base = dict(n=2 if q else 3, modmax=2 if q else 3, nq=2 if q else 3)
+    base = dict(n=2 if q else 3, modmax=2 if q else 3, nq=2)
+    # (three symbolic 62-bit keys, three moduli and three queries at once exceed the per-query solver budget: thorough widens keys and moduli,
+    #  and a separate family keeps two keys with three queries)
     out = []
     for state in ("array", "scalar", "filled"):
         for op in ("get1", "getv", "set1", "setv", "contains", "fill"):
@@ -329,6 +331,11 @@ def jobs(tier, seed):
     for like in ([], ["zeros"], ["ones", "zeros"]):
         out.append(dict(base, op="setv", state="array", vdtype="float64", like=like, vvec=True))
         out.append(dict(base, op="getv", state="array", vdtype="float64", like=like))
+    if not q:
+        small = dict(n=2, modmax=2, nq=3)
+        out = [dict(o, **small) if (o.get("like") or o.get("vdtype") or o.get("inputs") or o.get("kdtype")) else o for o in out]
+        for op in ("getv", "setv", "contains"):
+            out.append(dict(small, op=op, state="array", vvec=(op == "setv")))
     return [dict(h="C11.table", p=p) for p in out]
 
 
